@@ -87,6 +87,7 @@ class Prop(BaseProp):
             "with an injected client (guarded constructor) that fails chosen put / upload_shard calls (one, two, the shard) and delays others (5-40 ms, so that uploads finish out of order); the caller goes on after an error, "
             "as the property's quantifier allows; oracles: at the start of every shard upload every xorb named by a file record of that shard is stored; no shard upload after a failed put; a session whose calls all "
             "returned Ok had no failed store call and every file is rebuilt from the store and compared; the observed store-call log is replayed on the model's task bookkeeping, which must allow the shard upload it saw; "
+            "a sweep of single sessions of 1..30 small files under the 2048-byte shard target (for some counts the last record triggers the automatic flush and finalize meets an empty in-memory shard); "
             "non-trivial = at least two store calls; distinct by sha256 of the case text")
 
     def streams(self, rng, tier):
@@ -95,11 +96,21 @@ class Prop(BaseProp):
         cases = [{"id": "u%d" % i, "text": gen_case(rng, big), "meta": {}} for i in range(n)]
         # a second configuration in which a session writes several shards (the shard uploads run concurrently)
         cases2 = [{"id": "us%d" % i, "text": gen_case(rng, big, many_shards=True), "meta": {}} for i in range(n // 2)]
+        # a sweep over the number of small files of one session under the small shard target: the session shard is flushed to a
+        # file of its own whenever it reaches the target, so for some counts the very last record is the one that triggers the
+        # flush and finalize finds the in-memory shard empty -- the shards are the files in the session directory all the same
+        # (seed C16-r3m2 needs exactly that coincidence)
+        sweep = []
+        for size in ([500, 3000] if not big else [1, 500, 3000, 9000]):
+            for k in range(1, 31 if not big else 61):
+                ops = ["S fp=- fs=- dp=-"] + ["f w%d_%d %d:%d" % (size, j, 1000 + 3 * j, size) for j in range(k)] + ["E"]
+                sweep.append({"id": "uw%d_%d" % (size, k), "text": " | ".join(ops), "meta": {}})
         return [{"name": "upl", "cases": cases, "env": ENV, "prep": "upl", "prep_impl": True, "timeout": 1200},
-                {"name": "upl", "cases": cases2, "env": ENV_SMALL_SHARDS, "prep": "upl", "prep_impl": True, "timeout": 1200}]
+                {"name": "upl", "cases": cases2, "env": ENV_SMALL_SHARDS, "prep": "upl", "prep_impl": True, "timeout": 1200},
+                {"name": "upl", "cases": sweep, "env": ENV_SMALL_SHARDS, "prep": "upl", "prep_impl": True, "timeout": 1200}]
 
     def nontrivial(self, stream, case, io):
-        if case["text"].count("f n") >= 1:
+        if case["text"].count("| f ") >= 1:
             return hashlib.sha256(case["text"].encode()).hexdigest()
         return None
 
